@@ -45,11 +45,11 @@ type vbsSchema struct {
 	enum  *vbEnum
 	svc   *vbService
 	// fields of M by name
-	f, g, h, k, j *vField
-	oneof         *vbOneof
-	ext           *vField
-	v, w          *vbEnumValue
-	method        *vbMethod
+	f, g, h, k, j, q *vField
+	oneof            *vbOneof
+	ext              *vField
+	v, w             *vbEnumValue
+	method           *vbMethod
 }
 
 func vbsField(m *vMsg, f *vFile, name string, num int, kind protoreflect.Kind, class int) *vField {
@@ -68,8 +68,8 @@ func vbsField(m *vMsg, f *vFile, name string, num int, kind protoreflect.Kind, c
 }
 
 // vbsBase: file a.proto, package p, proto3; message p.M {f=1 int32, g=2 int32 in oneof o, h=3 required int32,
-// k=4 repeated int32, j=5 int64; reserved 10..12, "r"; extensions 100..200; nested message M.N};
-// enum p.E {V=0, W=1; reserved 5..6, "R"}; extension p.x = 100 of .p.M; service p.S {rpc R(i) returns (o)}.
+// k=4 repeated int32, j=5 int64, q=6 proto3-optional int32 (synthetic oneof _q); reserved 10..12, "r"; extensions 100..200; nested message M.N};
+// enum p.E {V=0, W=1; reserved 5..6, "R"}; extension p.x = 100 of .p.M; service p.S {rpc R(i) returns (o)}; plus dep.proto (package dep), present only as an import.
 func vbsBase() *vbsSchema {
 	s := &vbsSchema{}
 	f := &vFile{path: "a.proto", pkg: "p", syntax: bufprotosource.SyntaxProto3, optFor: descriptorpb.FileOptions_SPEED}
@@ -80,12 +80,16 @@ func vbsBase() *vbsSchema {
 	m.msgs = append(m.msgs, &vMsg{name: "N", nested: "M.N", full: "p.M.N", file: f})
 	s.f = vbsField(m, f, "f", 1, protoreflect.Int32Kind, 2)
 	s.g = vbsField(m, f, "g", 2, protoreflect.Int32Kind, 1)
-	s.oneof = &vbOneof{name: "o"}
+	s.oneof = &vbOneof{name: "o", fields: []bufprotosource.Field{s.g}}
 	s.g.oneof = s.oneof
 	m.oneofs = append(m.oneofs, s.oneof)
 	s.h = vbsField(m, f, "h", 3, protoreflect.Int32Kind, 3)
 	s.k = vbsField(m, f, "k", 4, protoreflect.Int32Kind, 4)
 	s.j = vbsField(m, f, "j", 5, protoreflect.Int64Kind, 2)
+	s.q = vbsField(m, f, "q", 6, protoreflect.Int32Kind, 1) // proto3 optional: synthetic oneof "_q"
+	s.q.proto3Optional = true
+	s.q.oneof = &vbOneof{name: "_q", synthetic: true, fields: []bufprotosource.Field{s.q}}
+	m.oneofs = append(m.oneofs, s.q.oneof)
 	m.resRngs = append(m.resRngs, &vbRange{s: 10, e: 12})
 	m.resNms = append(m.resNms, &vbResName{v: "r"})
 	m.extRngs = append(m.extRngs, &vbRange{s: 100, e: 200})
@@ -104,7 +108,8 @@ func vbsBase() *vbsSchema {
 	f.enums = append(f.enums, e)
 	f.exts = append(f.exts, s.ext)
 	f.svcs = append(f.svcs, svc)
-	s.files = []bufprotosource.File{f}
+	// dep.proto is only in the image as an import (imports are part of the request unless excluded by configuration)
+	s.files = []bufprotosource.File{f, &vFile{path: "dep.proto", pkg: "dep", syntax: bufprotosource.SyntaxProto3, isImport: true}}
 	s.file, s.msg, s.enum, s.svc = f, m, e, svc
 	return s
 }
@@ -206,12 +211,21 @@ var vbsScenarios = []vbsScenario{
 	{"rename enum value", func(s *vbsSchema) { s.v.name = "V2" }, []string{"ENUM_VALUE_SAME_NAME"}},
 	{"change json name", func(s *vbsSchema) { s.f.jsonName = "ff" }, []string{"FIELD_SAME_JSON_NAME"}},
 	{"rename field", func(s *vbsSchema) { s.f.name = "f2" }, []string{"FIELD_SAME_NAME"}},
-	{"move field into oneof", func(s *vbsSchema) { s.f.oneof = s.oneof }, []string{"FIELD_SAME_ONEOF"}},
+	{"move field into oneof", func(s *vbsSchema) {
+		s.f.oneof = s.oneof
+		s.oneof.fields = append(s.oneof.fields, s.f)
+	}, []string{"FIELD_SAME_ONEOF"}},
 	{"real oneof member -> proto3 optional", func(s *vbsSchema) {
-		syn := &vbOneof{name: "_g", synthetic: true}
+		syn := &vbOneof{name: "_g", synthetic: true, fields: []bufprotosource.Field{s.g}}
 		s.g.oneof, s.g.proto3Optional = syn, true
 		s.msg.oneofs = append(s.msg.oneofs, syn)
 	}, []string{"FIELD_SAME_ONEOF"}},
+	{"add field _q: the compiler renames q's synthetic oneof to X_q", func(s *vbsSchema) {
+		s.q.oneof.name = "X_q"
+		vbsField(s.msg, s.file, "_q", 7, protoreflect.Int32Kind, 2)
+	}, nil},
+	{"drop an import: the imported file (and its package) leaves the image", func(s *vbsSchema) { s.files = s.files[:1] },
+		[]string{"FILE_NO_DELETE", "PACKAGE_NO_DELETE"}},
 	{"required label removed", func(s *vbsSchema) { s.h.label = descriptorpb.FieldDescriptorProto_LABEL_OPTIONAL }, []string{"MESSAGE_SAME_REQUIRED_FIELDS"}},
 	{"delete enum reserved range", func(s *vbsSchema) { s.enum.resRngs = nil }, []string{"RESERVED_ENUM_NO_DELETE"}},
 	{"delete message reserved name", func(s *vbsSchema) { s.msg.resNms = nil }, []string{"RESERVED_MESSAGE_NO_DELETE"}},
